@@ -27,7 +27,7 @@ MONTHS = ["January", "February", "March", "April", "May", "June", "July", "Augus
           "November", "December"]
 PREFS = ["current", "first", "last"]
 ABS_FORMS = ["month_year", "mon_year", "mm_slash_yyyy", "yyyy_dash_mm", "year", "full_dmy", "full_mdy", "full_iso"]
-FMT_FORMS = ["%B %Y", "%m/%Y", "%Y", "%Y %H:%M", "%d %B %Y", "%b %Y", "%Y-%m"]
+FMT_FORMS = ["%B %Y", "%m/%Y", "%Y", "%Y %H:%M", "%d %B %Y", "%b %Y", "%Y-%m", "%Y-%j", "%j %Y %H:%M"]
 
 
 def complete(y, m, d, ref, pday, pmonth):
@@ -74,10 +74,10 @@ def check_case(case):
         via = case["via"]
     else:
         formats = [form]
-        has_m = any(x in form for x in ("%m", "%B", "%b"))
-        has_d = "%d" in form
+        has_m = any(x in form for x in ("%m", "%B", "%b", "%j"))  # a day of the year states month and day
+        has_d = "%d" in form or "%j" in form
         s = form.replace("%B", MONTHS[m - 1]).replace("%b", MONTHS[m - 1][:3]).replace("%m", "%02d" % m)
-        s = s.replace("%Y", Y).replace("%d", "%02d" % d)
+        s = s.replace("%Y", Y).replace("%d", "%02d" % d).replace("%j", "%03d" % dt.date(y, m, d).timetuple().tm_yday)
         if "%H" in form:
             tm = tm or [7, 8]
             s = s.replace("%H", "%02d" % tm[0]).replace("%M", "%02d" % tm[1])
